@@ -2,7 +2,7 @@
     Only statements, [exact]s and [Print Assumptions]; proofs live in Checkpoint.v, Driver.v, CkNames.v.
     The pinned tree violated several clauses (final-window rows, rows after unaligned restarts, latest file for
     t >= 10^6, float time steps); they are repaired in /repo and the theorems below describe the repaired code. *)
-From Coq Require Import List Arith NArith Lia Permutation.
+From Coq Require Import List Arith NArith ZArith Lia Permutation.
 Import ListNotations.
 From PGV Require Import Blocks NdIndex Checkpoint Driver CkNames.
 
@@ -80,10 +80,23 @@ Print Assumptions lexicographic_latest_refuted_pinned.
 
 (** ** the driver *)
 
-(** ti = t // dt recovers the step count from the time stamp of the checkpoint *)
+(** the start index of a restart recovers the step count from the time stamp of the checkpoint: exactly
+    for an integer dt; for a float dt (times are integer multiples of a common binary unit) the nearest step
+    int(t/dt + 0.5) of eb78f61 / 56219e6 is k whenever the accumulated time is closer to k*dt than dt/2,
+    whereas the floor t // dt of the pinned tree is one short for any time just below k*dt *)
 Theorem restart_time_index : forall dt k, 0 < dt -> ck_ti_of_time dt (k * dt) = k.
 Proof. exact ck_ti_roundtrip. Qed.
 Print Assumptions restart_time_index.
+
+Theorem restart_time_index_nearest : forall dt t k, (0 < dt)%Z -> (2 * Z.abs (t - k * dt) < dt)%Z ->
+  ck_nearest_step dt t = k.
+Proof. exact ck_nearest_step_spec. Qed.
+Print Assumptions restart_time_index_nearest.
+
+Theorem floor_time_index_short_pinned : forall dt t k, (0 < dt)%Z -> (k * dt - dt <= t < k * dt)%Z ->
+  ck_floor_step dt t = (k - 1)%Z.
+Proof. exact ck_floor_step_short. Qed.
+Print Assumptions floor_time_index_short_pinned.
 
 (** a run ends after [ck_count] iterations (bounded by tN, cut by the wall-clock oracle) with the field
     advanced that many steps; every stop point is reachable *)
@@ -248,6 +261,12 @@ Proof. vm_compute. split; reflexivity. Qed.
 Example restart_unaligned_examples :
   ck_lines_split_nat 3 1 6 = [Some 0; Some 1; Some 3; Some 2; Some 6; Some 4; Some 5] /\
   ck_lines_split_nat 4 2 3 = [Some 0; Some 1; Some 2; Some 3].
+Proof. vm_compute. split; reflexivity. Qed.
+
+(** binary64 0.1 and 0.5 as multiples of 2^-55: 0.5 // 0.1 = 4 but the nearest step is 5 *)
+Example tenth_example :
+  ck_floor_step 3602879701896397 18014398509481984 = 4%Z /\
+  ck_nearest_step 3602879701896397 18014398509481984 = 5%Z.
 Proof. vm_compute. split; reflexivity. Qed.
 
 Example names_example : ck_name 40 = [103;114;105;100;95; 48;48;48;48;52;48; 46;104;53]%N.
